@@ -359,6 +359,10 @@ class GCXS(SparseArray, NDArrayOperatorsMixin):
     def _reduce_calc(self, method, axis, keepdims=False, **kwargs):
         if len(set(axis)) != len(axis):
             raise ValueError("duplicate value in 'axis'")
+        if len(axis) == 0:
+            # nothing is reduced: there is no axis left to compress over, so go through COO
+            out = self.tocoo().reduce(method, axis=axis, keepdims=keepdims, **kwargs)
+            return (out.asformat("gcxs", compressed_axes=self.compressed_axes),)
         if axis[0] is None or np.array_equal(np.sort(axis), np.arange(self.ndim, dtype=np.intp)):
             x = self.flatten().tocoo()
             out = x.reduce(method, axis=None, keepdims=keepdims, **kwargs)
